@@ -44,6 +44,12 @@ theorem limit_constant (lim : Nat) (as : List Act) (s : St) (h : run (init lim) 
       cases a <;> simp only [step, addG, addM] at hs1 <;> (repeat' split at hs1) <;> cases hs1 <;> rfl
     · cases h
 
+/-- A recorded trace may start with the finished token of an earlier conclusion still in the channel: that
+    start state is reachable from the initial state, so every accepted trace extends to a run from `init`. -/
+theorem start_with_token_reachable (lim : Nat) :
+    run (init lim) [.hcall, .hinc, .begin true, .fnRet true 0, .modDec true, .dec true, .tokSend] = some (initTok lim) := by
+  simp [run, step, init, initTok, addG_high, addG_conclude, addM_run, addM_conclude]
+
 /-! ## the concurrency limit -/
 
 /-- **Limit.** Before shutdown begins and as long as no maximum delay has expired, at most `lim` medium- and
